@@ -28,6 +28,18 @@ Theorem C17_width_class : forall s,
 Proof. exact width_class. Qed.
 Print Assumptions C17_width_class.
 
+(* ... and it cannot change between two consecutive bounds (a, b + 1 of the rows) of the four tables: this is
+   what lets the correspondence run print the model's width classes as runs, evaluating the extracted
+   functions at the ends of every piece between two bounds instead of at each of the 1 114 111 code points
+   (the implementation is still evaluated at every code point) *)
+Theorem C17_width_class_runs : forall c c', c <= c' ->
+  (forall x, In x class_bounds -> ~ (c < x <= c')) ->
+  uc_isdw c = uc_isdw c' /\ uc_iszw c = uc_iszw c' /\ tfind c bchars = tfind c' bchars /\ uc_acomb c = uc_acomb c' /\
+  forall s s', Z.of_N (uc_code s) = c -> Z.of_N (uc_code s') = c' -> plain_ascii (hd0 s) = plain_ascii (hd0 s') ->
+    uc_wid s = uc_wid s' /\ uc_isbell s = uc_isbell s'.
+Proof. exact width_class_const. Qed.
+Print Assumptions C17_width_class_runs.
+
 (* every character occupies between 1 and 8 cells (a zero-width character is drawn as a one-cell
    placeholder; every configured placeholder is at least one cell wide) *)
 Theorem C17_cwid_range : forall s p, 0 <= p -> 1 <= ren_cwid s p <= 8.
@@ -114,5 +126,7 @@ Print Assumptions C17_chars_valid.
 (* the hypothesis is satisfiable (no reordering), and the functions compute: "a<TAB>中b" *)
 Example C17_nonvacuous :
   (forall s, Permutation ((fun _ ord => ord) s (seq 0 (uc_slen s))) (seq 0 (uc_slen s))) /\
-  ren_position (fun _ ord => ord) {| xorder := 2; xlim := 256 |} [97; 9; 228; 184; 173; 98]%N = [0; 1; 8; 10; 11].
-Proof. split; [intro s; apply Permutation_refl | vm_compute; reflexivity]. Qed.
+  ren_position (fun _ ord => ord) {| xorder := 2; xlim := 256 |} [97; 9; 228; 184; 173; 98]%N = [0; 1; 8; 10; 11] /\
+  (* a piece without a table bound: U+4E00..U+4E10 *)
+  forallb (fun x => negb ((19968 <? x) && (x <=? 19984))) class_bounds = true.
+Proof. split; [intro s; apply Permutation_refl | split; vm_compute; reflexivity]. Qed.
